@@ -10,12 +10,12 @@
 EXTENDS BsCap, TLC, Json
 VARIABLE st   \* [wrap, pre, open, content, close, post, cut]
 
-Pre == {"none", "pi", "cmt", "doctype", "empty", "cempty", "bang"}
-Open == {"oa", "oattr", "ons", "osp", "sc", "scattr", "scsp"}
+CONSTANTS Pre,      \* subset of {"none", "pi", "cmt", "doctype", "empty", "cempty", "bang"}
+          Open,     \* subset of {"oa", "oattr", "ons", "osp", "sc", "scattr", "scsp"}
+          Content,  \* subset of {"none", "txt", "cdata", "nested", "ccmt", "opencdata"}
+          Close,    \* subset of {"ca", "cns", "cb", "none"}
+          Post      \* subset of {"none", "sp", "elem2", "stray", "lt", "ltbang"}
 SelfClosing == {"sc", "scattr", "scsp"}
-Content == {"none", "txt", "cdata", "nested", "ccmt", "opencdata"}
-Close == {"ca", "cns", "cb", "none"}
-Post == {"none", "sp", "elem2", "stray", "lt", "ltbang"}
 
 T(x) == CASE x = "none" -> << >>
    [] x = "pi" -> << 60, 63, 112, 63, 62 >>
@@ -53,15 +53,19 @@ B == SubSeq(Full(st), 1, Len(Full(st)) - st.cut)
 
 Dflt == [wrap |-> FALSE, pre |-> "none", open |-> "oa", content |-> "txt", close |-> "ca", post |-> "none", cut |-> 0]
 Init == st = Dflt
-Uncut == st.cut = 0
-SetWrap == Uncut /\ ~st.wrap /\ st' = [st EXCEPT !.wrap = TRUE]
-SetPre == Uncut /\ st.pre = "none" /\ \E x \in Pre \ {"none"} : st' = [st EXCEPT !.pre = x]
-SetOpen == Uncut /\ st.open = "oa" /\ \E x \in Open \ {"oa"} : st' = [st EXCEPT !.open = x]
-SetContent == Uncut /\ st.content = "txt" /\ st.open \notin SelfClosing /\ \E x \in Content \ {"txt"} : st' = [st EXCEPT !.content = x]
-SetClose == Uncut /\ st.close = "ca" /\ st.open \notin SelfClosing /\ \E x \in Close \ {"ca"} : st' = [st EXCEPT !.close = x]
-SetPost == Uncut /\ st.post = "none" /\ \E x \in Post \ {"none"} : st' = [st EXCEPT !.post = x]
+\* slots are filled left to right (a slot may change only while all later slots are still at their
+\* default), so every document is generated exactly once
+Later(n) == /\ st.cut = 0
+            /\ (n < 6 => st.post = "none") /\ (n < 5 => st.close = "ca") /\ (n < 4 => st.content = "txt")
+            /\ (n < 3 => st.open = "oa") /\ (n < 2 => st.pre = "none")
+SetWrap == Later(1) /\ ~st.wrap /\ st' = [st EXCEPT !.wrap = TRUE]
+SetPre == Later(2) /\ st.pre = "none" /\ \E x \in Pre \ {"none"} : st' = [st EXCEPT !.pre = x]
+SetOpen == Later(3) /\ st.open = "oa" /\ \E x \in Open \ {"oa"} : st' = [st EXCEPT !.open = x]
+SetContent == Later(4) /\ st.content = "txt" /\ st.open \notin SelfClosing /\ \E x \in Content \ {"txt"} : st' = [st EXCEPT !.content = x]
+SetClose == Later(5) /\ st.close = "ca" /\ st.open \notin SelfClosing /\ \E x \in Close \ {"ca"} : st' = [st EXCEPT !.close = x]
+SetPost == Later(6) /\ st.post = "none" /\ \E x \in Post \ {"none"} : st' = [st EXCEPT !.post = x]
 \* cut anywhere (plain skeletons only, to keep the corpus small)
-CutIt == Uncut /\ st.pre = "none" /\ st.post = "none" /\ \E c \in 1 .. (Len(Full(st)) - 1) : st' = [st EXCEPT !.cut = c]
+CutIt == st.cut = 0 /\ st.pre = "none" /\ st.post = "none" /\ \E c \in 1 .. (Len(Full(st)) - 1) : st' = [st EXCEPT !.cut = c]
 Next == SetWrap \/ SetPre \/ SetOpen \/ SetContent \/ SetClose \/ SetPost \/ CutIt
 Spec == Init /\ [][Next]_st
 
